@@ -332,7 +332,8 @@ class RankResult(ResultABC):
 
         """
         if self.has_ties_:
-            return np.argsort(self.rank_) + 1
+            order = np.argsort(self.rank_, kind="stable")
+            return np.argsort(order, kind="stable") + 1
         return self.rank_
 
     def to_series(self, *, untied=False):
